@@ -80,6 +80,9 @@ type Incarnation struct {
 	crashAt int // crash immediately before the k-th mutating store call from now (0 = off)
 	failAt  int // the k-th failable store call from now returns an error (0 = off)
 	crashedAtGate bool
+	parkAt  int           // park the caller at the k-th mutating store call from now (slow disk)
+	parkCh  chan struct{} // non-nil while a caller is parked
+	parkOp  string
 	staged  uint64 // volatile staged commit index
 	starting bool  // inside NewRaft
 }
@@ -101,6 +104,19 @@ func (inc *Incarnation) mutGate(op string, failable bool) (bool, error) {
 			return false, nil
 		}
 	}
+	if inc.parkAt > 0 {
+		inc.parkAt--
+		if inc.parkAt == 0 {
+			ch := make(chan struct{})
+			inc.parkCh, inc.parkOp = ch, op
+			inc.mu.Unlock()
+			<-ch
+			inc.mu.Lock()
+			if inc.dead {
+				return false, nil
+			}
+		}
+	}
 	if failable && inc.failAt > 0 {
 		inc.failAt--
 		if inc.failAt == 0 {
@@ -118,6 +134,26 @@ func (inc *Incarnation) detachLocked() {
 	}
 	inc.dead = true
 	inc.disk = inc.disk.clone()
+}
+
+// Unpark releases a caller parked at a slow store write. Returns whether one was parked.
+func (inc *Incarnation) Unpark() bool {
+	inc.mu.Lock()
+	ch := inc.parkCh
+	inc.parkCh = nil
+	inc.parkAt = 0
+	inc.mu.Unlock()
+	if ch != nil {
+		close(ch)
+		return true
+	}
+	return false
+}
+
+func (inc *Incarnation) Parked() bool {
+	inc.mu.Lock()
+	defer inc.mu.Unlock()
+	return inc.parkCh != nil
 }
 
 func (inc *Incarnation) detach() {
